@@ -151,7 +151,7 @@ def run(ctx, col, tier):
               "; ".join(body), "copy-and-apply wrapper does not copy, apply and return the copy",
               stmt="copy-apply")
 
-    counter_rule(ctx, col)
+    col.guard(counter_rule, ctx, col)
 
     for q, what in ((f"{TU}.sort_tree", "sort_tree"), (f"{NORM}.sort_nodes_", "sort_nodes_")):
         recursion_free(ctx, col, "R-CG", [q], f"recursion-free from {what}")
